@@ -272,6 +272,44 @@ def run_sources(srcs, work, prefix):
         return common.compile_and_run(srcs[i], work, "%s%d" % (prefix, i))
     return common.pmap(one, range(len(srcs)), workers=6)
 
+def range_family(run, quick):
+    """deterministic pairs on range loops: the step (and the bounds) written as literals versus returned by a function /
+    held in a `let` local — the compiler knows the direction of the loop in the first form only"""
+    fam = []
+    combos = []
+    for t in (["i32", "i16"] if quick else ["i8", "i16", "i32", "i64", "u16", "u32"]):
+        for incl in (False, True):
+            for down in ((False, True) if core.signed(t) else (False,)):
+                for k in (1, 3):
+                    for exact in (True, False):
+                        combos.append((t, incl, down, k, exact))
+    for (t, incl, down, k, exact) in combos:
+        n = 3
+        lo = 1
+        hi = lo + n * k + (0 if exact else 1)
+        a, b = (hi, lo) if down else (lo, hi)
+        sv = -k if down else k
+        def prog(form):
+            fns = []
+            if form == "call":
+                fns.append(dict(params=[], ret=t, body=[("return", ("lit", t, sv))]))
+                step = ("call", 0, [])
+                pre = []
+            elif form == "let":
+                step = ("var", 4)
+                pre = [("let", 4, t, ("lit", t, sv), False)]
+            else:
+                step = ("lit", t, sv)
+                pre = []
+            body = pre + [("let", 1, t, ("lit", t, a), True), ("let", 2, t, ("lit", t, b), True),
+                          ("for", 3, t, ("var", 1), ("var", 2), [("print", [("var", 3)])], incl, step),
+                          ("print", [("lit", t, 0)])]
+            return fns + [dict(params=[], ret="void", body=body)]
+        desc = "%s %s %s step %d, end %s" % (t, "inclusive" if incl else "exclusive", "down" if down else "up", sv, "hit exactly" if exact else "stepped over")
+        fam.append((desc, "lit-call-range-step", prog("lit"), prog("call")))
+        fam.append((desc, "bind-range-step", prog("lit"), prog("let")))
+    return fam
+
 def main(run):
     work = Work()
     quick = run.tier == "quick"
@@ -302,6 +340,8 @@ def main(run):
     fam = edge_family(run, quick)
     for t, op, p0, p1 in fam:
         bases.append(p0); variants.append(p1); meta.append((len(bases) - 1, "bind-subexpr-edge", "%s %s consumed directly vs bound to a const first" % (t, op)))
+    for desc, kind, p0, p1 in range_family(run, quick):
+        bases.append(p0); variants.append(p1); meta.append((len(bases) - 1, kind, desc))
     allp = bases + variants
     res = c01.compile_run_all(allp, work)
     observed = [core.parse_output(r["out"]) if r.get("rc") == 0 else None for r in res]
